@@ -15,7 +15,7 @@ def shards(tier):
     return [dict(s, consts=dict(s["consts"], oracle="fmt")) for s in _shards(tier) if s["fn"] not in C07_ONLY]
 
 
-C07_ONLY = {"node_resolution", "tuple_arity"}
+C07_ONLY = {"node_resolution", "tuple_arity", "node_resolution_hist"}
 
 
 def _shards(tier):
@@ -46,6 +46,12 @@ def _shards(tier):
         {"fn": "spot_tuple_mixed", "consts": {}, "timeout": 600},
         {"fn": "node_resolution", "consts": {}, "timeout": 600},
     ]
+    for t in sorted(R.INTS):
+        for shape in (("sequence", "mapping") if tier == "quick" else ("sequence", "set", "mapping", "tuple")):
+            out.append({"fn": "seq_of_int", "consts": {"type": t, "shape": shape}, "timeout": 600})
+    for ty in ("double", "float"):
+        out.append({"fn": "seq_of_double", "consts": {"ty": ty}, "timeout": 600})
+    out.append({"fn": "spot_seq_variant", "consts": {}, "timeout": 600})
     for ar in (1, 2, 3):
         out.append({"fn": "tuple_lemma", "consts": {"arity": ar}, "timeout": 600})
     return out
